@@ -69,6 +69,7 @@ var registry = map[string]propCfg{
 	"C04": chainProp("one case = a seeded block stream of one-to-one IBTP traffic with receipts success/failure/rollback, timeouts 0..5 blocks, receipts before, in and after the expiry block and after final states, empty blocks; a reference status machine written from the statement is folded over the accepted events and block heights and compared with GetStatus after every block", 800, 80000),
 	"C06": chainProp("one case = a seeded block stream of one-to-one IBTP traffic with timeouts T in {0,1,2,3,5,2^62,-1} and receipts around H+T; after every block the per-chain timeout notification sets and the statuses are compared with a reference expiry model", 800, 80000),
 	"C07": chainProp("one case = a seeded mixed block stream; for every block one FAILED transaction (rotating) is replaced on a twin replica by an empty transaction of the same sender and nonce and the two resulting state stores are compared key by key (only the sender's and the admins' balances may differ, by exactly the fee difference); later receipts must be equal and the failed transaction must not appear in the delivery set; the twin is then brought to the real block through the executor's rollback path", 800, 80000),
+	"C08": chainProp("one case = a seeded block stream of (a) structure- and byte-level mutations of well-formed transactions (nil/junk/truncated/oversized payloads, unknown transaction and VM types, nil or unknown destination, unknown methods, malformed service and IBTP identifiers, extreme indices and timeouts, junk IBTP types, mismatched or empty groups, junk proofs, junk or truncated WASM modules) and (b) direct calls of every reflection-enumerated contract method with typed arbitrary argument vectors (incl. wrong counts and types) by all roles, at any block position, mixed with valid traffic, some chains bound to WASM/FabricSim rules; oracle: one receipt per transaction in order, next height, an executed event within the watchdog (wedge), and the worker process survives (an un-recovered panic in a node goroutine kills it; the controller attributes the death to the announced run, resumes behind it and minimises the plan with one process per candidate)", 800, 80000),
 	"C14": chainProp("one case = a seeded block stream dominated by transfers (0, 1, small, exact balance, balance+1, 2^256, non-numeric; self transfers; to admins and contract-less accounts; bad signatures; gas price 0/1/50000; 1-4 admins) with single-transaction blocks mixed in; after every block the sum of all balances in the state store must not grow, no balance is negative, and for single-transfer blocks sender/receiver/fee/admin-split accounting is exact", 1000, 100000),
 }
 
